@@ -4,6 +4,7 @@
 mod engine;
 mod vmarket;
 mod gens;
+mod mgen;
 mod props;
 mod refmath;
 mod svm;
